@@ -24,8 +24,10 @@ SOURCES = [
     'modules/terminal/impl/service/telnetd.cpp', 'modules/terminal/impl/service/tcp_rpc.cpp',
     'modules/terminal/impl/service/stdio.cpp',
     'modules/util/split_cmdline.cpp', 'modules/util/string.cpp', 'modules/util/buffer.cpp', 'modules/util/fd.cpp', 'modules/util/fs.cpp',
-    # network: NOT tcp_server.cpp (the harness defines a recording TcpServer); the stdio service runs on the real
+    # network: the real TcpServer/TcpConnection (clients are socketpairs); the stdio service runs on the real
     # StdioStream / BufferedFd over redirected fds
+    'modules/network/tcp_server.cpp', 'modules/network/tcp_acceptor.cpp', 'modules/network/tcp_connection.cpp',
+    'modules/network/socket_fd.cpp',
     'modules/network/buffered_fd.cpp', 'modules/network/stdio_stream.cpp', 'modules/network/ip_address.cpp',
     'modules/network/sockaddr.cpp'] + vlib.EVENT_SOURCES + vlib.BASE_SOURCES
 SOURCES = list(dict.fromkeys(SOURCES))      # BASE_SOURCES may already contain some of them
@@ -474,6 +476,8 @@ def gen(rng, tier):
     yield ['xconn 6', 'xconn 5', 'open 1', 'recv ' + hx('exit\r\n'), 'xrecv 6 ' + hx('exit\r\n'), 'xrecv 5 ' + hx('pwd\r\n'), 'passdown', 'xconn 6']
     yield ['mkfunc e', 'mount 0 1 ' + hx('p'), 'xconn 6', 'xrecv 6 ' + hx('p\r\n'), 'teardown', 'open 0']
     yield ['mkfunc e', 'mount 0 1 ' + hx('p'), 'xconn 4', 'xrecv 4 ' + hx('p;exit\r\n'), 'passdown']
+    # several sessions ended in one pass: in the order their exit tasks were queued
+    yield ['open 0', 'sel 1', 'open 1', 'sel 2', 'open 0', 'recv ' + hx('exit\r\n'), 'sel 0', 'recv ' + hx('exit\r\n'), 'sel 1', 'recv ' + hx('pwd;exit\r\n'), 'pass']
     # re-entrant use: '!!' re-run of a shorter line while a handler feeds a key; a stored '!!' line
     yield ['depth 0', 'mkfunc f:' + hx('x'), 'mount 0 1 ' + hx('p'), 'open 0', 'recv ' + hx('p\r\n'), 'depth 1', 'recv ' + hx('!!     \r\n')]
     yield ['depth 1', 'mkfunc f:' + hx('\r\n!!'), 'mount 0 1 ' + hx('p'), 'open 0', 'recv ' + hx('p\r\n'), 'recv ' + hx('history\r\n'), 'recv ' + hx('!!\r\n')]
@@ -529,11 +533,14 @@ RULE = ('op files from props/C13/plugin.py gen(): shell sessions over random nod
 TRUSTED = ['model lean/TboxModel/C13/Model.lean is hand-written from modules/terminal/impl/*.cpp (incl. service/telnetd, tcp_rpc, stdio), '
            'util/split_cmdline.cpp, util/string.cpp; tied by differential runs (ASan+UBSan build of the working tree)',
            'lean/TboxModel/C13/Gen.lean (key scanner table) is dumped from the running implementation on every run; the dump code is in props/C13/harness.cpp',
-           'network::TcpServer is replaced by a recording stub defined in the harness (tcp_server.cpp is not linked): Telnetd::Impl/TcpRpc::Impl '
-           'are driven through onTcpConnected/onTcpReceived/onTcpDisconnected with an exactly sized Buffer; sockets, TcpConnection and '
-           'TcpAcceptor are not part of the model. The stdio service runs on the real StdioStream/BufferedFd with fds 0/1 redirected to pipes '
+           'telnet / raw-TCP clients are socketpairs whose server end is handed to the real network::TcpServer as a TcpConnection: what '
+           'Telnetd/TcpRpc send (telnet negotiation included) and whom they disconnect goes through the real TcpServer/TcpConnection/socket '
+           'path and is read back from the client end; RECEIVED bytes are handed to Impl::onTcpReceived directly in an exactly sized Buffer '
+           '(no loop pass needed, overreads visible to ASan), a client closing is TcpConnection::onSocketClosed(); TcpAcceptor and the '
+           'socket read path are not exercised. The stdio service runs on the real StdioStream/BufferedFd with fds 0/1 redirected to pipes '
            '(termios calls fail harmlessly on a pipe)',
-           'output lines of one op are grouped by session slot: the order of sends between DIFFERENT sessions within one op is not compared',
+           'output lines of one op are grouped by connection: sessions on the recording connection are compared in chronological order '
+           '(e.g. the order in which a loop pass ends them); different socket/pipe clients have no mutual order',
            'string constants (lean/TboxModel/C13/Msgs.lean) are transcribed by hand; a changed message text shows up as a P-divergence']
 ASSUMPTIONS = ['the host program never deletes the root node',
                'command handlers act on their own session only through Session::send/endSession and Terminal::onRecvString (scripted in the '
